@@ -42,6 +42,11 @@ class AMinusB(SameArrayShapeMixin, Command):
         b = kwargs["B"].result
         self.validate_array_shapes([a, b], lineno=self.lineno)
 
+        if a.dtype.kind == "u" and b.dtype.kind == "u":
+            # The difference of unsigned integers (e.g. "Positive Integer" data) wraps around below zero
+            a = a.astype(numpy.int64)
+            b = b.astype(numpy.int64)
+
         return a - b
 
 
